@@ -138,29 +138,34 @@ class Sequence:
 
     def add_absolute_message(self, msg) -> None:
         """See `scoda.sequence.absolute_sequence.AbsoluteSequence.add_message`."""
+        absolute_sequence = self.abs
         try:
-            self.abs.add_message(msg)
+            absolute_sequence.add_message(msg)
         finally:
             self.invalidate_rel()
 
     def add_relative_message(self, msg, index=None) -> None:
         """See `scoda.sequence.relative_sequence.RelativeSequence.add_message`."""
+        relative_sequence = self.rel
         try:
-            self.rel.add_message(msg, index=index)
+            relative_sequence.add_message(msg, index=index)
         finally:
             self.invalidate_abs()
 
     def concatenate(self, sequences: list[Sequence]) -> None:
         """See `scoda.sequence.relative_sequence.RelativeSequence.concatenate`."""
+        relative_sequence = self.rel
+        relative_sequences = [seq.rel for seq in sequences]
         try:
-            self.rel.concatenate([seq.rel for seq in sequences])
+            relative_sequence.concatenate(relative_sequences)
         finally:
             self.invalidate_abs()
 
     def cutoff(self, maximum_length, reduced_length) -> None:
         """See `scoda.sequence.relative_sequence.AbsoluteSequence.cutoff`."""
+        absolute_sequence = self.abs
         try:
-            self.abs.cutoff(maximum_length=maximum_length, reduced_length=reduced_length)
+            absolute_sequence.cutoff(maximum_length=maximum_length, reduced_length=reduced_length)
         finally:
             self.invalidate_rel()
 
@@ -178,8 +183,10 @@ class Sequence:
 
     def merge(self, sequences: list[Sequence]) -> None:
         """See `scoda.sequence.absolute_sequence.AbsoluteSequence.merge`."""
+        absolute_sequence = self.abs
+        absolute_sequences = [seq.abs for seq in sequences]
         try:
-            self.abs.merge([seq.abs for seq in sequences])
+            absolute_sequence.merge(absolute_sequences)
         finally:
             self.invalidate_rel()
         self.normalise()
@@ -192,8 +199,9 @@ class Sequence:
             calls without calling `message_abs()` again.
 
         """
+        absolute_sequence = self.abs
         try:
-            for message in self.abs._messages:
+            for message in absolute_sequence._messages:
                 self.invalidate_rel()
                 yield message
         finally:
@@ -207,8 +215,9 @@ class Sequence:
             calls without calling `message_rel()` again.
 
         """
+        relative_sequence = self.rel
         try:
-            for message in self.rel._messages:
+            for message in relative_sequence._messages:
                 self.invalidate_abs()
                 yield message
         finally:
@@ -216,8 +225,9 @@ class Sequence:
 
     def normalise(self) -> None:
         """See `scoda.sequence.relative_sequence.RelativeSequence.normalise_relative`."""
+        relative_sequence = self.rel
         try:
-            self.rel.normalise_relative()
+            relative_sequence.normalise_relative()
         finally:
             self.invalidate_abs()
 
@@ -251,8 +261,9 @@ class Sequence:
 
     def pad(self, padding_length) -> None:
         """See `scoda.sequence.relative_sequence.RelativeSequence.pad`."""
+        relative_sequence = self.rel
         try:
-            self.rel.pad(padding_length)
+            relative_sequence.pad(padding_length)
         finally:
             self.invalidate_abs()
 
@@ -269,8 +280,9 @@ class Sequence:
 
     def set_channel(self, channel: int) -> None:
         """See `scoda.sequence.relative_sequence.RelativeSequence.set_channel`."""
+        relative_sequence = self.rel
         try:
-            self.rel.set_channel(channel)
+            relative_sequence.set_channel(channel)
         finally:
             self.invalidate_abs()
 
@@ -282,8 +294,9 @@ class Sequence:
 
     def scale(self, factor, meta_sequence=None, quantise_afterwards=True) -> None:
         """See `scoda.sequence.relative_sequence.RelativeSequence.scale`."""
+        relative_sequence = self.rel
         try:
-            self.rel.scale(factor, meta_sequence)
+            relative_sequence.scale(factor, meta_sequence)
         finally:
             self.invalidate_abs()
 
@@ -292,8 +305,9 @@ class Sequence:
 
     def transpose(self, transpose_by: int) -> bool:
         """See `scoda.sequence.relative_sequence.RelativeSequence.transpose`."""
+        relative_sequence = self.rel
         try:
-            shifted = self.rel.transpose(transpose_by)
+            shifted = relative_sequence.transpose(transpose_by)
         finally:
             self.invalidate_abs()
 
@@ -306,15 +320,18 @@ class Sequence:
 
     def quantise(self, step_sizes: list[int] = None) -> None:
         """See `scoda.sequence.absolute_sequence.AbsoluteSequence.quantise`."""
+        absolute_sequence = self.abs
         try:
-            self.abs.quantise(step_sizes)
+            absolute_sequence.quantise(step_sizes)
         finally:
             self.invalidate_rel()
 
     def quantise_note_lengths(self, note_values=None, standard_length=PPQN, do_not_extend=False) -> None:
         """See `scoda.sequence.absolute_sequence.AbsoluteSequence.quantise_note_lengths`."""
+        absolute_sequence = self.abs
         try:
-            self.abs.quantise_note_lengths(note_values, standard_length=standard_length, do_not_extend=do_not_extend)
+            absolute_sequence.quantise_note_lengths(note_values, standard_length=standard_length,
+                                                    do_not_extend=do_not_extend)
         finally:
             self.invalidate_rel()
 
